@@ -20,7 +20,7 @@ import numpy as np
 
 from .. import core
 from ..impl import filters as fl
-from ..impl.wire import dec_arr, dec_frac, enc_arr, enc_f
+from ..impl.wire import dec_arr, enc_arr, enc_f
 
 PROP = "C10"
 TOL = Fraction(1, 100000)
@@ -406,7 +406,6 @@ def run_intervals(ctx, report, case, compare_model=True):
         report.hit("intervals_same_median")
         if not same_arrays(before["disparity_map"], after["disparity_map"]):
             report.fail("intervals_same_median", "intervals_disparity_changed", case, None, "median_for_intervals changed the disparity map; " + tag)
-        frame = {k: before[k] for k in before}
         idx = {n: i for i, n in enumerate(before["indicator"])}
         if after.get("indicator") != before["indicator"]:
             report.fail("intervals_same_median", "intervals_bands_renamed", case, {"after": after.get("indicator")}, tag)
@@ -453,7 +452,6 @@ def run_intervals(ctx, report, case, compare_model=True):
                     if not same_arrays(np.array(want, dtype=np.float32), after["confidence_measure"][:, :, idx[n]]):
                         report.disagree(f"intervals.regularized_band[{n}]", case, "differs",
                                         "interval_regularization(model median of the bands)")
-        del frame
     return stats
 
 
@@ -626,5 +624,3 @@ def replay(ctx, report, path):
     print("replayed: failures=%d disagreements=%d" % (len(report.failures), len(report.disagreements)))
     return 1 if report.failures else 0
 
-
-__all__ = ["dec_frac"]
